@@ -1,7 +1,7 @@
-\* C11 leg A thorough: tables of 1..7 values, sampling 1..5, sorted requests of <= 4 values over 1..2n+1
+\* C11 leg A thorough: tables of 1..6 values, sampling 1,2,3,5, sorted requests of <= 4 values over 1..2n+1
 SPECIFICATION Spec
-CONSTANTS MaxN = 7
-          Ks = {1, 2, 3, 4, 5}
+CONSTANTS MaxN = 6
+          Ks = {1, 2, 3, 5}
           MaxW = 4
 INVARIANTS AnswersLikeFullIndex AnswersAcceptable NeverOverAnswers
 PROPERTY Terminates
